@@ -66,8 +66,11 @@ def build(p):
     ops.append(("fills", "b", S("cb")))
     ops.append(("checksnap", "a1", "a", "filling b after a += b changed a (shared state)"))
     ops.append(("snap", "b1", "b"))
+    ops.append(("snap", "s1", "s"))
     ops.append(("fills", "a", S("ca")))
     ops.append(("checksnap", "b1", "b", "filling a after a += b changed b (shared state)"))
+    # (the pure sum taken before the in-place merge is the yardstick of this property: it must not move with its operands)
+    ops.append(("checksnap", "s1", "s", "filling a changed the sum a + b taken earlier (the yardstick shares state with its operand)"))
     # the merged a is a first-class aggregator: it continues like the pure sum
     ops.append(("fills", "s", S("ca")))
     ops.append(("checkeq", "a", "s", "a += b then fill differs from (a + b) then fill"))
